@@ -13,6 +13,7 @@ fn main() {
         Some("zonebuild") => denial::zonebuild_case(input),
         Some("n3hash") => denial::n3hash_case(input),
         Some("salt") => denial::salt_case(input),
+        Some("n3flags") => denial::n3flags_case(input),
         _ => json!({"bad_case": true}),
     });
 }
